@@ -15,6 +15,7 @@ class Plan:
     technique: str = ''
     level_text: str = ''
     level_note: str = ''
+    static: Optional[Callable] = None      # AST-level obligations: callable(repo) -> [(obligation id, holds, detail)]
 
 
 PLANS = {}
@@ -215,6 +216,50 @@ PLANS['C08'] = Plan(
     "maxDifference values); all clauses of the statement are evaluated on the XMAP text with an independent parser.",
     bounded=_lazy('bcheck.c08', 'bounded'), replay=_lazy('bcheck.c08', 'replay'),
     technique='bounded differential run-time contract across output modes (deductive part: see functions_under_contract)',
+)
+
+PLANS['C06'] = Plan(
+    'C06', ['src/correlation/optical_map.py::toRelativeGenomicPositions', 'src/correlation/sequence_generator.py::SequenceGenerator.positionsToSequence',
+            AE + '__getAlignedPairs'], 'exploration',
+    "Decided by a BOUNDED run-time contract on Program.run: that FFT cross-correlation plus scipy find_peaks seeds the true diagonal is floating-point "
+    "numerics outside any contract within reach. Planted exact copies of interior reference windows (class stated in the property) must be reported exactly. "
+    "Deductive contributions reported alongside and not counted towards the level: bins are counted from the window start and a bin index converts to the "
+    "bin centre (within resolution/2), and candidates within maxDistance of the seed diagonal are exactly enumerated with offset = query - (reference - seed).",
+    bounded=_lazy('bcheck.c06', 'bounded'), replay=_lazy('bcheck.c06', 'replay'),
+    technique='bounded run-time contract on the real program for planted exact copies (deductive lemmas on binning and pairing reported alongside)',
+)
+
+PLANS['C11'] = Plan(
+    'C11', ['lemma::C11::mirror_image_read_forwards_equals_query_read_on_reverse_strand', OMP + 'getPositionsWithSiteIds',
+            'src/alignment/segment_chainer.py::SequentialityScorer.getScore'], 'exploration',
+    "Decided by a BOUNDED run-time contract on the real program: that binning/FFT seeding gives the same seed peaks for a query and its mirror image is numerics "
+    "outside any contract. Lattice-commensurate sets; every query is run together with its mirror image and the two first-pass records must mirror each "
+    "other (reference, opposite orientation, same reference labels, k -> N+1-k, same Confidence). Deductive contributions reported alongside: the mirror lemma "
+    "(reading the mirror image forwards yields the same coordinate sequence as reading the query on the reverse strand, with labels k <-> N+1-k, from the "
+    "contract of getPositionsWithSiteIds) and the strand-independence of the join score (getScore contract, both strands).",
+    bounded=_lazy('bcheck.c11', 'bounded'), replay=_lazy('bcheck.c11', 'replay'),
+    technique='bounded differential run-time contract (query vs mirror image) on the real program; mirror lemma over the numbering contract reported alongside',
+)
+
+PLANS['C10'] = Plan(
+    'C10', [], 'exploration',
+    "Decided by a BOUNDED differential run-time contract on the real program: file order and id filters go through pandas, outside any contract within "
+    "reach. The records of a run on the full files are compared per query with runs on subsets, permutations, row-shuffled files and -qId/-rId selections.",
+    bounded=_lazy('bcheck.c10', 'bounded'), replay=_lazy('bcheck.c10', 'replay'),
+    technique='bounded differential run-time contract on the real program (variants of the same input)',
+)
+
+PLANS['C09'] = Plan(
+    'C09', [], 'other',
+    "Contracts are silent on scheduling; what is checked deductively is the sequential core, as STATIC obligations on the AST of /repo on every run: the map "
+    "used by _WorkflowCoordinator.execute is p_tqdm.p_imap (assumed contract: results in input order for every num_cpus); the per-run service objects are not "
+    "mutated between queries (only AlignerEngine.iteration, which reaches results only through AlignedPair.source, itself read only by repr/hash/copy); no "
+    "module-level mutable state and no clock/randomness on the pipeline path. Hence the row list is map(F, queries) for a function F of (references, query, "
+    "arguments). BOUNDED (the only part that exercises real scheduling): the real CLI with worker counts 1..16, repetitions and perturbed completion orders.",
+    bounded=_lazy('bcheck.c09', 'bounded'), replay=_lazy('bcheck.c09', 'replay'), static=_lazy('bcheck.c09', 'static_obligations'),
+    technique='static frame obligations on the real AST under an assumed ordered-map contract; bounded differential CLI runs across worker counts and perturbed schedules',
+    assumptions=['p_tqdm.p_imap yields f(x0), f(x1), ... in input order for every num_cpus (assumed library contract)',
+                 'the quantifier over schedules rests on that assumption; real scheduling is exercised only by the bounded runs'],
 )
 
 NOT_APPLICABLE = {}
